@@ -20,14 +20,17 @@ Rec == ndJsonDeserialize(IOEnv.TRACE)
 VARIABLES l,     \* next line of Rec to consume
           st,    \* instance id -> instance state (or NoInst)
           e,     \* the event just bound
-          scr    \* script of the current trace (from its begin event)
+          scr,   \* script of the current trace (from its begin event)
+          cnt    \* how often the antecedents of the predicates were true in this trace (vacuity guard)
 
-vars == <<l, st, e, scr>>
+vars == <<l, st, e, scr, cnt>>
 
 Ids == 0..15
 NoEvent == [ev |-> "none", id |-> 0, line |-> 0]
 
-TraceInit == l = 1 /\ st = [i \in Ids |-> NoInst] /\ e = NoEvent /\ scr = ""
+Zero == [procOk |-> 0, withTaus |-> 0, ramped |-> 0, constRatio |-> 0, setOk |-> 0, setRej |-> 0,
+         chunkOk |-> 0, chunkRej |-> 0, badFaulty |-> 0, rtSafe |-> 0, peak |-> 0, flush |-> 0]
+TraceInit == l = 1 /\ st = [i \in Ids |-> NoInst] /\ e = NoEvent /\ scr = "" /\ cnt = Zero
 
 Cur == Rec[l]
 Is(name) == l <= Len(Rec) /\ Cur.ev = name
@@ -53,9 +56,37 @@ SetRatio == OnInst("set_ratio", AfterSetRatio)
 SetChunk == OnInst("set_chunk", AfterSetChunk)
 Reset    == OnInst("reset", AfterReset)
 Getters  == OnInst("getters", AfterOther)
+Alloc    == OnInst("alloc", AfterOther)
 
-TraceNext == Begin \/ Skip \/ New \/ Process \/ Partial \/ Bad \/ SetRatio \/ SetChunk
-               \/ Reset \/ Getters
+Bind == Begin \/ Skip \/ New \/ Process \/ Partial \/ Bad \/ SetRatio \/ SetChunk
+          \/ Reset \/ Getters \/ Alloc
+
+B(x) == IF x THEN 1 ELSE 0
+\* counters of the events on which the predicates had something to say
+Count(c, s, ev) ==
+  IF ev.ev = "begin" THEN Zero
+  ELSE IF ev.ev \notin {"process", "partial", "bad", "set_ratio", "set_chunk", "reset", "getters", "alloc"} THEN c
+  ELSE LET J == s[ev.id] IN
+    [procOk     |-> c.procOk + B(ProcOk(ev)),
+     withTaus   |-> c.withTaus + B(HasTaus(J, ev)),
+     ramped     |-> c.ramped + B(HasTaus(J, ev) /\ J.pre.cur # J.pre.tgt),
+     constRatio |-> c.constRatio + B(ProcOk(ev) /\ J.const /\ J.pre.const /\ (IsFft(J.kind) \/ J.orig.p > 0)),
+     setOk      |-> c.setOk + B(ev.ev = "set_ratio" /\ ev.res = "ok"),
+     setRej     |-> c.setRej + B(ev.ev = "set_ratio" /\ ev.res = "err"),
+     chunkOk    |-> c.chunkOk + B(ev.ev = "set_chunk" /\ ev.res = "ok"),
+     chunkRej   |-> c.chunkRej + B(ev.ev = "set_chunk" /\ ev.res = "err"),
+     badFaulty  |-> c.badFaulty + B(ev.ev = "bad" /\ Faults(J, ev) # {}),
+     rtSafe     |-> c.rtSafe + B(RTSafe(ev)),
+     peak       |-> c.peak + B(ProcOk(ev) /\ J.signal = "impulse" /\ J.best[2] > 0),
+     flush      |-> c.flush + B(ProcOk(ev) /\ J.padded > 0)]
+
+TraceNext == /\ Bind
+             /\ cnt' = Count(cnt, st', e')
+             /\ (e'.ev = "end" => PrintT("COUNTS|" \o scr \o "|" \o ToString(cnt.procOk) \o "|" \o ToString(cnt.withTaus)
+                     \o "|" \o ToString(cnt.ramped) \o "|" \o ToString(cnt.constRatio) \o "|" \o ToString(cnt.setOk)
+                     \o "|" \o ToString(cnt.setRej) \o "|" \o ToString(cnt.chunkOk) \o "|" \o ToString(cnt.chunkRej)
+                     \o "|" \o ToString(cnt.badFaulty) \o "|" \o ToString(cnt.rtSafe) \o "|" \o ToString(cnt.peak)
+                     \o "|" \o ToString(cnt.flush)))
 
 TraceSpec == TraceInit /\ [][TraceNext]_vars
 
@@ -72,7 +103,7 @@ TraceAccepted ==
 (***************************************************************************)
 (* Property predicates on the event just bound                             *)
 (***************************************************************************)
-OnCall == e.ev \in {"process", "partial", "bad", "set_ratio", "set_chunk", "reset", "getters"}
+OnCall == e.ev \in {"process", "partial", "bad", "set_ratio", "set_chunk", "reset", "getters", "alloc"}
 I == st[e.id]
 OnNewOk == e.ev = "new" /\ e.res = "ok"
 
@@ -81,6 +112,8 @@ P(name) ==
     [] name = "C04_Bounds"       -> (OnCall \/ OnNewOk) => C04_Bounds(I, e)
     [] name = "C04_Consumed"     -> OnCall => C04_Consumed(I, e)
     [] name = "C04_Written"      -> OnCall => C04_Written(I, e)
+    [] name = "C04_Allocate"     -> OnCall => C04_Allocate(I, e)
+    [] name = "C16_Flush"        -> OnCall => C16_Flush(I, e)
     [] name = "C06_Increasing"   -> OnCall => C06_Increasing(I, e)
     [] name = "C06_StepInRange"  -> OnCall => C06_StepInRange(I, e)
     [] name = "C06_RampMonotone" -> OnCall => C06_RampMonotone(I, e)
@@ -110,6 +143,8 @@ H_C03_CallOk == Hard("C03_CallOk")             S_C03_CallOk == Soft("C03_CallOk"
 H_C04_Bounds == Hard("C04_Bounds")             S_C04_Bounds == Soft("C04_Bounds")
 H_C04_Consumed == Hard("C04_Consumed")         S_C04_Consumed == Soft("C04_Consumed")
 H_C04_Written == Hard("C04_Written")           S_C04_Written == Soft("C04_Written")
+H_C04_Allocate == Hard("C04_Allocate")         S_C04_Allocate == Soft("C04_Allocate")
+H_C16_Flush == Hard("C16_Flush")               S_C16_Flush == Soft("C16_Flush")
 H_C06_Increasing == Hard("C06_Increasing")     S_C06_Increasing == Soft("C06_Increasing")
 H_C06_StepInRange == Hard("C06_StepInRange")   S_C06_StepInRange == Soft("C06_StepInRange")
 H_C06_RampMonotone == Hard("C06_RampMonotone") S_C06_RampMonotone == Soft("C06_RampMonotone")
